@@ -38,6 +38,7 @@ var cur *worker
 
 func startWorker() *worker {
 	cmd := exec.Command(os.Args[0], "worker")
+	cmd.Env = append(os.Environ(), "GORACE=halt_on_error=1")
 	in, _ := cmd.StdinPipe()
 	out, _ := cmd.StdoutPipe()
 	errf, _ := os.OpenFile(os.Getenv("VERIF_WORKDIR")+"/worker.stderr", os.O_CREATE|os.O_WRONLY|os.O_APPEND, 0644)
